@@ -112,13 +112,9 @@ def readNext (P : Params) (f : File) (s : QState) : QState × Except Err (Nat ×
   | (s1, .ok (lineIdx, stop)) =>
     ({ s1 with position := if lineIdx = 0 then 0 else lineIdx - 1 }, .ok (lineIdx, stop))
 
-/-- `readProbeLine(position)` → `(lineIdx, stop, lineEndIdx)`, the line is `file[lineIdx, stop)`. -/
-def readProbeLine (P : Params) (f : File) (position : Nat) : Except Err (Nat × Nat × Nat) :=
-  let seekPos := if position > P.maxEntry then position - P.maxEntry else 0
-  let rel := if position > P.maxEntry then P.maxEntry else position
-  let bufLen := min (2 * P.maxEntry) (f.size - seekPos)
-  if bufLen = 0 then .error .eof else       -- Read: (0, io.EOF)
-  let g : Nat → Nat := fun i => if i < bufLen then f.byte (seekPos + i) else 0
+/-- The two scans of `readProbeLine` over the freshly read buffer `g` (cell `i` is
+`g i`): `(lineIdx, stop, lineEndIdx)`. -/
+def probeScan (g : Nat → Nat) (seekPos rel bufLen : Nat) : Except Err (Nat × Nat × Nat) :=
   let startLine := scanBack g rel
   let (endLine, lineEndIdx) :=
     match scanFwd g rel (bufLen - rel) with
@@ -127,6 +123,18 @@ def readProbeLine (P : Params) (f : File) (position : Nat) : Except Err (Nat × 
   -- string(buffer[startLine:endLine])
   if startLine > endLine then .error .panic else
   .ok (startLine + seekPos, endLine + seekPos, lineEndIdx)
+
+/-- The buffer of `readProbeLine`: `make([]byte, 2*maxEntrySize)` filled by one `Read`. -/
+def probeWindow (f : File) (seekPos bufLen : Nat) : Nat → Nat :=
+  fun i => if i < bufLen then f.byte (seekPos + i) else 0
+
+/-- `readProbeLine(position)` → `(lineIdx, stop, lineEndIdx)`, the line is `file[lineIdx, stop)`. -/
+def readProbeLine (P : Params) (f : File) (position : Nat) : Except Err (Nat × Nat × Nat) :=
+  let seekPos := if position > P.maxEntry then position - P.maxEntry else 0
+  let rel := if position > P.maxEntry then P.maxEntry else position
+  let bufLen := min (2 * P.maxEntry) (f.size - seekPos)
+  if bufLen = 0 then .error .eof else       -- Read: (0, io.EOF)
+  probeScan (probeWindow f seekPos bufLen) seekPos rel bufLen
 
 /-- `validateQLogLineIdx`; `last = none` is `lastProbeLineIdx = -1`. -/
 def validateIdx (lineIdx : Nat) (last : Option Nat) (fSize : Nat) : Option Err :=
